@@ -12,7 +12,8 @@ META = {
                  "shapes round robin, payload 0/1/random/maximal, random ids/counters/garbage, random start index), a deterministic grid "
                  "of scale classes the token model abstracts away (one garbage run of 65551/65552/65553/131072/200000 bytes leading, "
                  "between, in front of the last message or trailing x both framings x random bytes or partial frame markers at the "
-                 "64 KiB / 65551 / 128 KiB boundaries x every front-end), seeded random "
+                 "64 KiB / 65551 / 128 KiB boundaries x every front-end), a grid of trailing garbage runs of 7..9/15..17/19..21/35/36/39..41 "
+                 "bytes behind 0/1/2/5 messages x both framings x every front-end, seeded random "
                  "streams and the repository's .dlt files run through the real DltMessageIterator (over slice, Cursor and "
                  "LowMarkBufReader), every recorded run validated by TLC against the contract FramingTrace.tla whose header carries "
                  "the generator's ground truth",
@@ -82,7 +83,7 @@ def check(ctx):
     nrand = 800 if quick else 8000
     info = drive(binp, ["--scenarios", scn, "--variants", "2" if quick else "4", "--max-l", "2" if quick else "3", "--random", str(nrand),
                         "--max-msgs", "60" if quick else "200", "--seed", str(ctx.seed), "--files", os.path.join(c.REPO, "tests"),
-                        "--file-msgs", "300" if quick else "3000", "--scale", "1" if quick else "2"], trace)
+                        "--file-msgs", "300" if quick else "3000", "--scale", "1" if quick else "2", "--tails", "1"], trace)
     # (e) TLC validates every recorded run against the contract
     v = c.validate_trace(ctx, "framing", "FramingTrace.tla", trace, sw, timeout=6000, xmx="8g")
     ctx.add_tlc("trace-validation", v.res)
@@ -139,6 +140,7 @@ def check(ctx):
             kinds[key] = kinds.get(key, 0) + 1
     ctx.extra["trace_events_by_kind"] = kinds
     ctx.extra["long_garbage_cases"] = info["long_garbage"]
+    ctx.extra["trailing_garbage_grid_cases"] = info["tail_grid_cases"]
     ctx.extra["repository_files"] = info["files"]
     ctx.extra["trace_events"] = info["lines"]
     if ctx.violations:
